@@ -304,3 +304,110 @@ Proof.
     + rewrite A2. exact Lt.
     + intros x Hx. rewrite A2. reflexivity.
 Qed.
+
+Lemma scan_fuel : forall n m rem p t lk, (List.length rem < n)%nat -> (List.length rem < m)%nat -> scan n rem p t lk = scan m rem p t lk.
+Proof.
+  induction n as [|n IH]; intros m rem p t lk Hn Hm; [lia|]. destruct m as [|m]; [lia|].
+  cbn [scan]. destruct rem as [|kl [|a [|b [|c [|d rest]]]]]; try reflexivity.
+  destruct (kl + rd32 a b c d <=? len rest); [|reflexivity].
+  apply IH; rewrite skipn_length; simpl in *; lia.
+Qed.
+
+(* the object state while map_blocks runs (the handle is being opened: _closed may still be true) *)
+Record Obj (s : state) (h : handle) (h2v b0v : bytes) : Prop := {
+  ob_toc : lookup_env (attrs s) "_toc" = Some (VToc (toc h));
+  ob_last : lookup_env (attrs s) "_last" = Some (vopt_bytes (last h));
+  ob_eof : lookup_env (attrs s) "_eof" = Some (vopt_int (eof h));
+  ob_h2 : lookup_env (attrs s) "h2" = Some (VBytes h2v);
+  ob_b0 : lookup_env (attrs s) "b0" = Some (VBytes b0v);
+  ob_bof : 32 + len b0v + len h2v = bof_of (file s);
+  ob_last_in : forall k, last h = Some k -> lookup (toc h) k <> None;
+  ob_strm : s_closed (strm s) = false /\ s_wr (strm s) = match md h with MA => true | MR => false end
+}.
+
+
+Fixpoint find_if (c : stmt) : option (expr * stmt * stmt) :=
+  match c with
+  | SIf e a b => Some (e, a, b)
+  | SSeq a b => match find_if a with Some r => Some r | None => find_if b end
+  | _ => None
+  end.
+
+(* the "nothing changed since I last looked" test of map_blocks is the model's [shortcut] *)
+Lemma shortcut_eval cond a b s h h2v b0v :
+  find_if map_blocks_prog = Some (cond, a, b) ->
+  Obj s h h2v b0v -> lookup_env (locals s) "size" = Some (VInt (len (file s))) ->
+  exists v, eval s cond = Val v /\ truthy v = shortcut (file s) h.
+Proof.
+  intros Hc O Hz. cbv in Hc. inversion Hc; subst cond a b; clear Hc.
+  destruct s as [f [p w c] at_ lo]. destruct O as [Ot Ol Oe O2 O0 Ob Oin [Oc Ow]].
+  cbn in Hz, Ot, Ol, Oe, O2, O0, Ob, Oc, Ow. unfold shortcut. cbn [file].
+  cbn [eval attrs locals]. rewrite Oe, Hz.
+  destruct (eof h) as [e|]; cbn [vopt_int val_eqb truthy]; [|eexists; split; reflexivity].
+  destruct (e =? len f) eqn:E1; cbn [truthy andb]; [|eexists; split; reflexivity].
+  rewrite Ol. destruct (last h) as [k|] eqn:El; cbn [vopt_bytes truthy].
+  - rewrite Ot. destruct (lookup (toc h) k) as [r|] eqn:Er; [|exfalso; apply (Oin k eq_refl); exact Er].
+    cbn [String.eqb Ascii.eqb Bool.eqb]. cbn [val_eqb]. eexists. split; [reflexivity|]. cbn [truthy].
+    unfold r_end. f_equal. lia.
+  - rewrite O0, O2. cbn [val_eqb]. eexists. split; [reflexivity|]. cbn [truthy]. rewrite <- Ob. reflexivity.
+Qed.
+
+Arguments scan : simpl never.
+
+Theorem map_blocks_code fuel s h h2v b0v :
+  (List.length (file s) < fuel)%nat -> Obj s h h2v b0v ->
+  let '(s', o) := exec fuel map_blocks_prog s in
+  let '(f', h') := map_blocks (file s) h in
+  file s' = f' /\ (o = ONormal \/ o = OReturn VNone) /\
+  lookup_env (attrs s') "_toc" = Some (VToc (toc h')) /\ lookup_env (attrs s') "_last" = Some (vopt_bytes (last h')) /\
+  lookup_env (attrs s') "_eof" = Some (vopt_int (eof h')) /\
+  (forall x, x <> "_toc" -> x <> "_last" -> x <> "_eof" -> lookup_env (attrs s') x = lookup_env (attrs s) x) /\
+  s_closed (strm s') = false /\ s_wr (strm s') = s_wr (strm s) /\ md h' = md h /\ closed h' = closed h.
+Proof.
+  intros Hfuel O.
+  destruct (find_if map_blocks_prog) as [[[cond ca] cb]|] eqn:Hif; [|discriminate].
+  destruct (find_while map_blocks_prog) as [[[wc wx] wb]|] eqn:Hwh; [|discriminate].
+  assert (Hwx : wx = "blk_header") by (cbv in Hwh; inversion Hwh; reflexivity). subst wx.
+  pose proof Hif as Hif0. pose proof Hwh as Hwh0. cbv in Hif0, Hwh0. inversion Hif0 as [[Hcond Hca Hcb]]. inversion Hwh0 as [[Hwc Hwb]].
+  destruct s as [f [p w c] at_ lo]. pose proof O as O'. destruct O as [Ot Ol Oe O2 O0 Ob Oin [Oc Ow]].
+  cbn in Hfuel, Ot, Ol, Oe, O2, O0, Ob, Oc, Ow. subst c. cbn [file attrs strm s_wr s_closed].
+  unfold map_blocks_prog. rewrite Hcond, Hwc, Hwb. clear Hif0 Hwh0 Hcond Hca Hcb Hwc Hwb.
+  (* size = self._stream.seek(0, 2) *)
+  cbn [exec strm s_closed file]. cbn [eval set_local set_pos locals file strm attrs s_pos s_wr s_closed]. envg.
+  set (s1 := mkst f (mks (len f) w false) at_ (set_env (set_env lo "%1" (VInt (len f))) "size" (VInt (len f)))).
+  assert (O1 : Obj s1 h h2v b0v).
+  { constructor; cbn [attrs file strm s1 s_closed s_wr]; try assumption. split; [reflexivity|exact Ow]. }
+  assert (Z1 : lookup_env (locals s1) "size" = Some (VInt (len (file s1)))) by (cbn [locals file s1]; envg; reflexivity).
+  destruct (shortcut_eval cond ca cb s1 h h2v b0v Hif O1 Z1) as [v [Ev Tv]].
+  change (set_local (set_local (set_pos (mkst f (mks p w false) at_ lo) (len f)) "%1" (VInt (len f))) "size" (VInt (len f))) with s1.
+  rewrite Ev, Tv. cbn [file s1]. unfold map_blocks. destruct (shortcut f h) eqn:Esc.
+  - (* nothing changed since this handle last looked *)
+    cbn [file attrs strm s1 s_closed s_wr]. repeat split; try assumption; try reflexivity. right; reflexivity.
+  - set (B := bof_of f).
+    (* pos = self._bof; seek(pos); key = None *)
+    cbn [exec eval attrs locals file strm s1 s_closed s_wr s_pos set_local set_pos]. rewrite O0, O2. envg.
+    replace (32 + len b0v + len h2v) with B by (symmetry; exact Ob).
+    set (s2 := set_local (set_pos (set_local s1 "pos" (VInt B)) B) "key" VNone).
+    assert (L2 : LoopSt f w B (toc h) None s2).
+    { constructor; cbn [s2 s1 file strm attrs locals set_local set_pos s_wr s_closed]; envg; try reflexivity; assumption. }
+    assert (Hlen : (List.length (skipn (N.to_nat B) f) < fuel)%nat) by (rewrite skipn_length; lia).
+    destruct (wloop_scan fuel wc wb f w Hwh fuel (skipn (N.to_nat B) f) B (toc h) None s2 Hlen eq_refl L2) as [s3 [E3 R3]].
+    rewrite E3.
+    rewrite (scan_fuel fuel (S (List.length f)) _ _ _ _ Hlen) in R3 by (rewrite skipn_length; lia).
+    destruct (scan (S (List.length f)) (skipn (N.to_nat B) f) B (toc h) None) as [[t' lk'] p'] eqn:Esn.
+    destruct R3 as [R1 [R2 [R3 [R4 [R5 [R6 [R7 R8]]]]]]].
+    destruct s3 as [f3 [p3 w3 c3] at3 lo3]. cbn [file strm attrs locals s_wr s_closed] in R1, R2, R3, R4, R5, R6, R7, R8. subst f3 w3 c3.
+    cbn [locals set_attr attrs file strm s_closed s_wr]. rewrite R8. cbn [locals set_attr attrs file strm]. rewrite R6. cbn [locals set_attr attrs file strm s_closed s_wr].
+    rewrite R6, R7. cbn [truthy s_closed s_wr strm].
+    assert (Tail : forall x, x <> "_toc" -> x <> "_last" -> x <> "_eof" ->
+                   lookup_env (set_env (set_env at3 "_last" (vopt_bytes lk')) "_eof" (VInt p')) x = lookup_env at_ x).
+    { intros x X1 X2 X3. rewrite !lookup_set_other by congruence. rewrite (R5 x X1). cbn [s2 s1 attrs set_local set_pos]. reflexivity. }
+    destruct (md h) eqn:Em; subst w.
+    + (* read mode: the file is left alone *)
+      destruct (p' <? len f) eqn:Ep; cbn [truthy set_attr attrs file strm s_closed s_wr toc last eof md closed vopt_bytes vopt_int]; envg;
+        (repeat split; try assumption; try reflexivity; try (left; reflexivity)).
+    + (* append mode: a torn tail is cut off *)
+      destruct (p' <? len f) eqn:Ep; cbn [truthy set_attr attrs file strm s_closed s_wr toc last eof md closed vopt_bytes vopt_int]; envg;
+        (repeat split; try assumption; try reflexivity; try (left; reflexivity)).
+      apply N.ltb_lt in Ep. replace (N.to_nat p' - List.length f)%nat with 0%nat by (unfold len in Ep; lia). cbn [repeat]. apply app_nil_r.
+Qed.
